@@ -352,6 +352,18 @@ def gen_failing(ctx, fmts, rng):
         sc.close("h0")
         sc.end()
         out.append(sc)
+    # ALAC writer whose sf_close cannot write (file size limit reached after the last write call): the spool FILE, its descriptor,
+    # the spool file on disk and the packet table are released by alac_close whatever the header re-write answers
+    for (nfr, ch) in ((0, 1), (3, 2), (5000, 2)):
+        sc = Sc("alac-close-efbig-%d" % nfr, "failing-close")
+        sc.open("h0", "s0", "w", 0x180070, ch, "path")
+        if nfr:
+            sc.op("w h0 s16 f %d %s" % (nfr, "".join("%04x" % ((k * 37) & 0xFFFF) for k in range(nfr * ch))), "write 1")
+        sc.op("fsize 0", None)
+        sc.close("h0")
+        sc.op("fsize off", None)
+        sc.end()
+        out.append(sc)
     return out
 
 
